@@ -4,7 +4,9 @@
 TREE="${1:-/repo}"
 OUT="$(mktemp /tmp/baseline.XXXXXX.xml)"
 unset AIOCOAP_VERIF
-cd "$TREE" && /venv/bin/python -m pytest -ra -q -p no:cacheprovider --timeout=900 --continue-on-collection-errors --junitxml="$OUT" > "$OUT.log" 2>&1
+# a private network namespace keeps concurrent suite runs from talking to each other on port 5683
+if unshare -n true 2>/dev/null; then NS="unshare -n sh -c"; else NS="sh -c"; fi
+cd "$TREE" && $NS "ip link set lo up 2>/dev/null; /venv/bin/python -m pytest -ra -q -p no:cacheprovider --timeout=900 --continue-on-collection-errors --junitxml=$OUT" > "$OUT.log" 2>&1
 /venv/bin/python - "$OUT" <<'PY'
 import json, sys, xml.etree.ElementTree as ET
 base = json.load(open('/root/.vp/BASELINE.json'))
